@@ -1,8 +1,9 @@
 (* C19 -- saving and restoring VFS state reproduces the same namespace (feature persist).
    Only statements, closed by [exact]; proofs live in Proofs/VfsPersist.v. *)
 From Coq Require Import List NArith Bool.
-From FB Require Import Model.Pseudo Gen.VfsTable Model.Vfs Model.Persist
-  Proofs.VfsCodec Proofs.VfsAlloc Proofs.VfsInv Proofs.VfsRouting Proofs.PseudoWalk Proofs.VfsPersist Proofs.PseudoTree.
+From FB Require Import Model.Pseudo Gen.VfsTable Model.Vfs Model.Persist Model.VfsRun Model.VfsLive
+  Proofs.VfsCodec Proofs.VfsAlloc Proofs.VfsInv Proofs.VfsRouting Proofs.PseudoWalk Proofs.VfsPersist Proofs.PseudoTree
+  Proofs.VfsEq Proofs.VfsEqOps Proofs.VfsLiveInv Proofs.VfsRoundtrip Proofs.VfsObsEq Proofs.VfsObsEx.
 Import ListNotations.
 Local Open Scope N_scope.
 
@@ -107,6 +108,100 @@ Example C19_nonvacuous : exists s t', reachable s /\ vfs_restore (vfs_new defaul
   v_next t' = 3 /\ ps_next (v_ps t') = 5.
 Proof. exact ex_restore. Qed.
 
+(* ======================================================================================================
+   The property as ONE statement.  [run_hist] is the executable history runner of Model/VfsRun.v (mount, over-mount,
+   umount, init, destroy, state query, every client request sync and async; its output is the list of per-step
+   observations the correspondence check compares with the implementation: results, inode numbers, owner ids, backend
+   call logs).  [fill ord c l] gives every save/restore step of l the re-attach list of the caller at that moment
+   (Model/VfsLive.v: the bookkeeping of harness/src/bin/vfs.rs), in the order [ord] -- ANY order.
+   For every history h before the save, every future fut (further save/restores included), every snapshot version and
+   either way of constructing the fresh Vfs: from the save/restore on, every step is observed exactly as in the history
+   without it.  [good] (a boolean, Model/VfsLive.v) excludes: the two recorded findings (initialized not persisted when
+   it disagrees with in_opts; global id mapping when the fresh Vfs is default-constructed and the saved one had one),
+   evictions of pseudo directories that still have children (nested mounts, documented unsupported), version-1
+   snapshots of states with per-mount mappings (a version-1 writer had none), recorded mount paths that no longer lead
+   to their mount point (only possible with remove_pseudo_root and ".." in a mount path), and histories creating 2^56
+   pseudo directories. *)
+Theorem C19_observational_equivalence : forall ord, perm_order ord -> forall c h ver dflt hint fut,
+  good ord c (h ++ SSaveRestore ver dflt hint :: fut) = true ->
+  skipn (S (length h)) (run_hist c (fill ord c (h ++ SSaveRestore ver dflt hint :: fut))) =
+  skipn (length h) (run_hist c (fill ord c (h ++ fut))).
+Proof. exact obs_equiv. Qed.
+
+(* the unrestricted statement, refuted by the recorded finding (INIT without capability bits); the theorem above is
+   its covered part *)
+Definition C19_full : Prop := obs_equiv_full.
+Theorem C19_full_refuted : ~ C19_full.
+Proof. exact obs_equiv_refuted. Qed.
+Theorem C19_partial : forall ord, perm_order ord -> forall c h ver dflt hint fut,
+  good ord c (h ++ SSaveRestore ver dflt hint :: fut) = true ->
+  skipn (S (length h)) (run_hist c (fill ord c (h ++ SSaveRestore ver dflt hint :: fut))) =
+  skipn (length h) (run_hist c (fill ord c (h ++ fut))).
+Proof. exact obs_equiv. Qed.
+
+(* the pieces of the bisimulation.  R = [veq]: same counters, options, flags and mappings; pseudo inode table, mount
+   point table and superblock table give the same entry for every key (the restored tables are built in another order) *)
+(* 1. the round trip establishes R, the save/restore step reports success for every backend, and the invariant holds
+      again (so it can be repeated): any re-attachment order, any value of the index counter *)
+Theorem C19_restore_related : forall c s live ver dflt live', inv c s live -> Permutation.Permutation live' live ->
+  save_good c s live ver dflt = true ->
+  exists t, run_step c s (SSaveRestore ver dflt (reattach_of live')) = (t, save_ok_obs live', false) /\ veq s t /\ inv c t live.
+Proof. exact save_step. Qed.
+(* 2. R is preserved by every step that is not a save/restore, with equal observations *)
+Theorem C19_step_preserves : forall c s t st, is_save st = false -> veq s t ->
+  veq (st_of (run_step c s st)) (st_of (run_step c t st)) /\
+  obs_of (run_step c s st) = obs_of (run_step c t st) /\ dead_of (run_step c s st) = dead_of (run_step c t st).
+Proof. exact run_step_cong. Qed.
+(* 3. hence related states are observed identically for every covered future *)
+Theorem C19_bisimulation : forall ord, perm_order ord -> forall c l s t live dead, veq s t -> inv c s live -> inv c t live ->
+  good_from ord c s live dead l = true ->
+  run_from c s dead (fill_from ord c s live dead l) = run_from c t dead (fill_from ord c t live dead l).
+Proof. exact bisim. Qed.
+(* 4. idempotence: saving and restoring a restored Vfs gives a related state again *)
+Theorem C19_restore_idempotent : forall c s live ver dflt ver2 dflt2, inv c s live ->
+  save_good c s live ver dflt = true -> save_good c s live ver2 dflt2 = true ->
+  let t1 := restore_and_reattach c ver dflt s live in
+  let t2 := restore_and_reattach c ver2 dflt2 t1 live in
+  veq s t1 /\ veq s t2 /\ inv c t2 live.
+Proof. exact restore_idempotent. Qed.
+(* 5. the save/restore step of a covered history succeeds and re-attaches every backend *)
+Theorem C19_save_succeeds : forall ord, perm_order ord -> forall c h s live dead ver dflt hint, inv c s live ->
+  good_from ord c s live dead (h ++ [SSaveRestore ver dflt hint]) = true ->
+  let o := nth (length h) (run_from c s dead (fill_from ord c s live dead (h ++ [SSaveRestore ver dflt hint]))) [] in
+  o = [3] \/ exists live', o = save_ok_obs live'.
+Proof. exact save_succeeds. Qed.
+(* 6. restore_mount leaves the index counter alone: whatever list of backends is re-attached (all, a subset, any order,
+      failing ones included), next_super is what restore_from_bytes stored *)
+Theorem C19_reattach_keeps_counter : forall l t, v_next (fst (fst (fst (reattach_all t l)))) = v_next t.
+Proof. exact reattach_keeps_counter. Qed.
+
+(* the clause "recorded mount paths still lead to their mount point" of [good] is needed: with remove_pseudo_root and
+   ".." in a mount path, restore_mount re-creates an evicted pseudo directory (reproduced on the implementation,
+   fixes/C19-restore-mount-recreates-evicted-dir.patch): after the save/restore LOOKUP n1 answers inode 4, without it ENOENT *)
+Theorem C19_stale_path_diverges :
+  good ord_idx cfg_rm (dotdot_h ++ SSaveRestore 2 false [] :: dotdot_fut) = false /\
+  skipn (S (length dotdot_h)) (run_hist cfg_rm (fill ord_idx cfg_rm (dotdot_h ++ SSaveRestore 2 false [] :: dotdot_fut))) = [[0; 4; 4; 0; 0; 0; 0]] /\
+  skipn (length dotdot_h) (run_hist cfg_rm (fill ord_idx cfg_rm (dotdot_h ++ dotdot_fut))) = [[1; 0; 2; 0]].
+Proof. exact stale_path_diverges. Qed.
+
+(* non-vacuity: a covered history in which the index counter has wrapped -- /n1 attached at index 200, counter at 5,
+   indices 5..199 free -- with one and with two save/restores (version 1 into a default-constructed Vfs, then version 2);
+   evaluated, the mount after the save/restore gets index 5 *)
+Example C19_nonvacuous_wrap : let s := state_after cfg0 (vfs_of cfg0 false) wrap_h in
+  v_next s = 5 /\ aget 200 (v_sb s) = Some 10 /\ aget 5 (v_sb s) = None /\ aget 199 (v_sb s) = None.
+Proof. exact wrap_state. Qed.
+Example C19_nonvacuous_good : good ord_idx cfg0 (wrap_h ++ SSaveRestore 2 false [] :: wrap_fut) = true /\
+  good ord_idx cfg0 (wrap_h ++ SSaveRestore 1 true [] :: SSaveRestore 2 false [] :: wrap_fut) = true.
+Proof. exact wrap_good. Qed.
+Example C19_wrap_next_index :
+  nth 0 (skipn (S (length wrap_h)) (run_hist cfg0 (fill ord_idx cfg0 (wrap_h ++ SSaveRestore 2 false [] :: wrap_fut)))) [] =
+  [0; 5; 1; 11; 100; 0; 0; 0; 0; 0; 0].
+Proof. exact wrap_next_index. Qed.
+Example C19_nonvacuous_order : perm_order ord_idx.
+Proof. exact ord_idx_perm. Qed.
+Example C19_nonvacuous_inv : forall c, inv c (vfs_of c false) [].
+Proof. exact inv_new. Qed.
+
 Print Assumptions C19_restored_fields.
 Print Assumptions C19_reattach.
 Print Assumptions C19_issued_inodes_route.
@@ -123,3 +218,13 @@ Print Assumptions C19_initialized_refuted.
 Print Assumptions C19_initialized_partial.
 Print Assumptions C19_global_mapping_refuted.
 Print Assumptions C19_global_mapping_partial.
+Print Assumptions C19_observational_equivalence.
+Print Assumptions C19_full_refuted.
+Print Assumptions C19_partial.
+Print Assumptions C19_restore_related.
+Print Assumptions C19_step_preserves.
+Print Assumptions C19_bisimulation.
+Print Assumptions C19_restore_idempotent.
+Print Assumptions C19_save_succeeds.
+Print Assumptions C19_reattach_keeps_counter.
+Print Assumptions C19_stale_path_diverges.
